@@ -405,6 +405,54 @@ def facts(idx: Index, node, stop=None, at_entry=False) -> list:
 
 
 # ----------------------------------------------------------------------
+def _phi_fact(idx: Index, name_node, pol):
+    """A boolean local tested by name: `if past_limit:` where every binding
+    of it in the function is a plain `past_limit = <expr>` statement.  The
+    fact is the disjunction over the bindings d of (conditions under which d
+    ran) and (<expr_d> with the tested polarity); one binding gives a plain
+    conjunction.  Bindings whose operands are re-assigned before the test
+    are not expanded (no fact)."""
+    f = idx.owner(name_node)
+    if f is None:
+        return None
+    v = name_node.id
+    if v in {a.arg for a in ast.walk(f.node.args) if isinstance(a, ast.arg)}:
+        return None
+    defs = []
+    for n in idx.walk(f.node):
+        if isinstance(n, ast.Name) and n.id == v and isinstance(
+                n.ctx, (ast.Store, ast.Del)):
+            par = idx.parent.get(id(n))
+            if isinstance(par, ast.Assign) and len(par.targets) == 1 and \
+                    par.targets[0] is n:
+                defs.append(par)
+            elif isinstance(par, ast.AnnAssign) and par.target is n and \
+                    par.value is not None:
+                defs.append(par)
+            else:
+                return None
+    use_line = getattr(name_node, 'lineno', None)
+    defs = [d for d in defs if use_line is None or d.lineno < use_line]
+    if not defs or len(defs) > 4:
+        return None
+    alts = []
+    for d in defs:
+        e = d.value
+        if any(isinstance(x, (ast.Await, ast.Yield, ast.NamedExpr, ast.Lambda))
+               for x in ast.walk(e)):
+            return None
+        if use_line is not None and _stores_between(
+                f.node, getattr(d, 'end_lineno', d.lineno) or d.lineno,
+                use_line) & (_free_names(e) - {v}):
+            return None
+        conds, _fn = raw_conditions(idx, d)
+        parts = [nf(t, p) for t, p, _l in conds] + [nf(e, pol)]
+        alts.append(('and', flatten(parts)))
+    if len(alts) == 1:
+        return alts[0]
+    return ('or', alts)
+
+
 def expand_helpers(idx: Index, fact_list, resolve_helper, depth=2):
     """Expand positive facts that are calls of one-line predicate helpers.
 
@@ -416,6 +464,15 @@ def expand_helpers(idx: Index, fact_list, resolve_helper, depth=2):
     if depth <= 0:
         return out
     for f in fact_list:
+        if f[0] == 'atom' and isinstance(f[1], ast.Name) and isinstance(
+                f[1].ctx, ast.Load):
+            phi = _phi_fact(idx, f[1], f[2])
+            if phi is not None:
+                out.append(phi)
+                if phi[0] == 'and':
+                    out.extend(expand_helpers(
+                        idx, flatten([phi]), resolve_helper, depth - 1))
+            continue
         if f[0] != 'atom' or not isinstance(f[1], ast.Call):
             continue
         # `any(C for x in S [if D])` holds  =>  for some x of S, C (and D):
